@@ -103,6 +103,17 @@ def gen(tier, rng):
                 w.ue(0).ue(sid).b(0).b(0).ue(ngm1).ue(6).ue(cnt)
                 w.raw([1, 0] * 20)
                 cases.append("pps %s raw:%s" % (cx, hx(w.bytes())))
+    # ... and a count that agrees exactly (and off by one) with PicSizeInMapUnits of a large referenced SPS
+    for wv, hv in ((2999, 1999), (5999, 999), (65535, 0), (0, 65535), (4095, 4095), (46340, 46340)):
+        sx = g.gen_sps(rng, sps_id=0, small=True, force={"w": wv, "h": hv, "frame_mbs_only": True})
+        cxx = "S" + hx(g.sps_nal(sx, rng))
+        size = (wv + 1) * (hv + 1)
+        for cnt in (size - 1, size, size - 2):
+            for ngm1 in (1, 7):
+                w = BitWriter()
+                w.ue(0).ue(0).b(0).b(0).ue(ngm1).ue(6).ue(cnt)
+                w.raw([1, 0] * 12)
+                cases.append("pps %s raw:%s" % (cxx, hx(w.bytes())))
     # slice-group ids backed by data, doubling: time must stay linear in the input
     for e in range(8, (16 if tier == "quick" else 18)):
         nbytes = 1 << e
